@@ -169,7 +169,7 @@ def r121(facts, res, cone, cg):
                 res.ok(R, key, loc_of(b, h), '%s: %s' % (kind, detail))
             else:
                 res.bad(R, key, loc_of(b, h), 'no termination evidence: ' + detail, {'function': b.path, 'header': h})
-    res.floor(R, 'natural loops in the scanner modules of the cone', n, 32)
+    res.floor(R, 'natural loops in the scanner modules of the cone', n, 24)
     # R12.4 constant cursor steps only past characters proven ASCII
     R4 = 'R12.4'
     nsteps = 0
@@ -192,7 +192,7 @@ def r121(facts, res, cone, cg):
                         'it and the next slice panics (cycle through blocks %s)' % (cur, k, na, p.blocks[:14]), {'function': b.path})
             elif m:
                 res.ok(R4, key, loc_of(b, h), '%d constant-step cycle(s), each past characters matched against ASCII literals' % m)
-    res.floor(R4, 'loops with constant-step cycles that read the text at the cursor', nloops4, 2)
+    res.floor(R4, 'loops with constant-step cycles that read the text at the cursor', nloops4, 1)
     for k, v in kinds.items():
         res.count('R12.1 evidence ' + k, v)
     for k, v in sorted(pr.trust_used.items()):
